@@ -131,6 +131,29 @@ pub fn wedge_cells(a: &Args, rep: &mut Report, label: &str, quick: u64, thorough
     });
 }
 
+/// Large inputs (thousands to hundreds of thousands of generators: deep search trees, large index values, long face and
+/// connectivity arrays): uniform or density-gradient sets in the milder boxes, all dimensionalities, periodic or not.
+pub fn large_cases(a: &Args, rep: &mut Report, label: &str, quick: &[usize], thorough: &[usize], f: impl Fn(&Case, &mut Report) + Sync) {
+    if a.leg.as_deref().map_or(false, |l| l != "relcheck" && l != "norayon") {
+        return;
+    }
+    let szs: &[usize] = if a.tier == "thorough" { thorough } else { quick };
+    run_parallel(rep, szs.len() as u64, budget(a, 300., 2400.), |k, rep| {
+        let n = szs[k as usize];
+        let o = GenOpts {
+            families: &["uniform", "gradient", "uniform"],
+            sizes: &[n],
+            dims: &[3, 3, 2, 1],
+            mild_box: true,
+            ..Default::default()
+        };
+        let c = gen_case(&format!("{label}large"), &a.tier, a.seed, k, &o);
+        f(&c, rep);
+        rep.count("large_inputs", 1);
+        rep.max("largest_input_generators", c.n() as f64);
+    });
+}
+
 pub fn run(a: &Args, rep: &mut Report) {
     match a.id.as_str() {
         "C01" => c01(a, rep),
@@ -404,6 +427,7 @@ fn c02(a: &Args, rep: &mut Report) {
         let c = gen_case("C02", &a.tier, a.seed, k, &o);
         one_c02("C02", &c, rep);
     });
+    large_cases(a, rep, "C02", &[20000, 60000, 60000], &[20000, 60000, 250000, 250000], |c, rep| one_c02("C02", c, rep));
 }
 
 fn one_c03(prop: &str, c: &Case, rep: &mut Report) {
@@ -442,6 +466,7 @@ fn c03(a: &Args, rep: &mut Report) {
         with_random_mask("C03mask", a, k, &mut c, 3);
         one_c03("C03", &c, rep);
     });
+    large_cases(a, rep, "C03", &[20000, 40000], &[20000, 60000, 150000], |c, rep| one_c03("C03", c, rep));
 }
 
 fn one_c04(prop: &str, c: &Case, rep: &mut Report) {
